@@ -292,9 +292,22 @@ def lost_wake(d):
     return None
 
 
+def both_blocked_writing(d):
+    """the last transport call of each side is a write that found no room"""
+    evs = d["head"] + d["tail"]
+    for tag in (1, 2):
+        last = None
+        for (t, kind, a, b, c) in evs:
+            if t == tag and kind in T_KINDS:
+                last = (kind, b)
+        if last is None or last[0] != T_WRITE or last[1] not in (1, 2):
+            return False
+    return True
+
+
 def flush_pending_in_handshake(d):
     for tag in (1, 2):
-        for (t, kind, a, b, c) in d["head"]:
+        for (t, kind, a, b, c) in d["head"] + d["tail"]:
             if t != tag:
                 continue
             if kind == APP and a == 1 and b != 0:
@@ -369,6 +382,12 @@ class C15(diffcheck.DiffProp):
             d = parse(case, out)
             if d and d["verdict"] == 3 and not (d["cli"]["hs"] and d["srv"]["hs"]) and flush_pending_in_handshake(d):
                 return "C15-rustls-handshake-flush-pending"
+        # rustls does not read while it still has handshake data to send; with an in-flight bound of a
+        # few bytes in both directions both peers end up waiting for room to write and nobody reads
+        if case[:1] == [1] and case[1:2] == [1] and out:
+            d = parse(case, out)
+            if d and d["verdict"] == 3 and not (d["cli"]["hs"] and d["srv"]["hs"]) and both_blocked_writing(d):
+                return "C15-rustls-handshake-both-sides-writing-into-full-pipes"
         # tungstenite's AttackCheck: the HTTP upgrade delivered in > 64 reads of < 128 bytes
         # on average is refused (Error::AttackAttempt), by design of the engine
         if case[:1] == [2] and case[1:2] == [0] and out:
